@@ -138,7 +138,7 @@ func (s SerializedSegment) ToSegment() *Segment {
 
 		if nodeIndex < len(s.Edges) {
 			nextSegment := &Segment{
-				Edge:     s.Edges[nodeIndex-1],
+				Edge:     s.Edges[nodeIndex],
 				Previous: cursor,
 			}
 
